@@ -27,6 +27,10 @@ import CffVerif.Text.Hoist
 import CffVerif.Sched.Prompt
 import CffVerif.Sched.WorkConsCore
 import CffVerif.Gen.Complete
+import CffVerif.Text.Splice
+import CffVerif.Text.Walker
+import CffVerif.Text.Magic
+import CffVerif.Text.Hygiene
 
 namespace Sched
 
@@ -786,5 +790,43 @@ theorem C15_prologue {E : Type} (exprs : List (Nat × E)) :
     the same code (the per-site fact "only comments are guarded by sourceMapped" is the differential's). -/
 theorem C20_sourcemap (segs : List Seg) : stripComments (render true segs) = stripComments (render false segs) :=
   sourcemap_same_code segs
+
+
+/-- **C16 splice.** `GenerateFile` copies everything outside the directive calls: with the directive
+    spans sorted and disjoint, deleting the generated segments from the output leaves exactly the
+    source minus those spans (after the header, which is the inverted tag block), in the same order. -/
+theorem C16_splice {α : Type} (src : List α) (pkgOff : Nat) (header : List α) (gens : List (Gen α))
+    (h : Ordered pkgOff gens src.length) :
+    splice src pkgOff header (eraseGen gens) = header ++ (removeSpans src gens).drop pkgOff ∧
+    (filterIdx (fun i => decide (pkgOff ≤ i) && !inSpans gens i) 0 src).Sublist src :=
+  ⟨splice_erase_drop src pkgOff header gens h, splice_kept_sublist src pkgOff gens⟩
+
+/-- **C13 directive elimination (partial).** The output of the walker contains a directive exactly
+    when some directive was written inside another directive's arguments; so unless directives are
+    nested, none is left.  (The nested case is the recorded finding F8; `walker_nested_witness`.) -/
+theorem C13_walker_partial (t : Node) : hasDirective (rewrite t) = nestedDirective t ∧
+    (nestedDirective t = false → hasDirective (rewrite t) = false) :=
+  ⟨hasDirective_rewrite t, walker_partial t⟩
+
+/-- **C17 magic token.** In source-map mode the random token never reaches the output: two runs
+    with different tokens (neither occurring in the user's comments) write the same file; in base
+    mode no marker is written at all. -/
+theorem C17_magic (m1 m2 file : String) (body : List Magic.TTok) (h1 : Magic.Fresh m1 body) (h2 : Magic.Fresh m2 body) :
+    Magic.reset m1 file (Magic.render m1 true body) = Magic.reset m2 file (Magic.render m2 true body) ∧
+    Magic.render m1 false body = Magic.render m2 false body :=
+  ⟨Magic.magic_independent m1 m2 file body h1 h2, Magic.magic_base_independent m1 m2 body⟩
+
+/-- **C20 source-map, markers.** After the magic markers were replaced by line directives the
+    source-map output has the same code tokens as the base output. -/
+theorem C20_magic_strip (m file : String) (body : List Magic.TTok) :
+    Magic.stripComments (Magic.reset m file (Magic.render m true body)) = Magic.stripComments (Magic.render m false body) :=
+  Magic.magic_strip m file body
+
+/-- **C15 capture (partial).** A hoisted argument expression keeps its call-site meaning inside the
+    generated wrapper if it mentions neither `err` nor an earlier hoisted name.  The `err` case is
+    the recorded finding F6 (`Hygiene.err_captured`, a `decide`d witness). -/
+theorem C15_capture_partial (ρ : Hygiene.Env) (pre : List Hygiene.Line) (e : Hygiene.Expr)
+    (herr : Hygiene.errName ∉ e.fv) (hpre : ∀ l ∈ pre, l.name ∉ e.fv) :
+    e.eval (Hygiene.wrapperEnv ρ pre) = e.eval ρ := Hygiene.capture_partial ρ pre e herr hpre
 
 end Text
